@@ -12,6 +12,72 @@ ENGINES = [
      "evidence writer, known-findings classifier"},
 ]
 CHECKS = {
+    "C03": {
+        "technique": "runtime monitor with forest model: long random histories of public attach/detach/move operations over 2-5 IRs; get_by_uuid compared with a reachability scan for every node of the universe after every operation",
+        "text": "Held after every one of ~25k operations per quick run (480 histories, ~220 distinct operation kinds incl. set/list mixins, constructors stealing children, subtree moves between IRs, save->load joining the world with UUID twins): every attached node is found, every detached/moved-away node and fresh UUID gives None, in every live IR.",
+        "design_ref": "DESIGN.md section 5 C03",
+        "note": "Operations that would attach two nodes with one UUID to one IR are skipped (the property's precondition); worlds are small (20-60 nodes).",
+    },
+    "C04": {
+        "technique": "runtime monitor with forest + attribute model (invariant checks at quiescent points after every public operation) and a default-argument/shared-argument isolation probe",
+        "text": "After every operation: parent attribute <-> collection membership from both ends, no duplicates, derived accessors .ir/.module/.section, every aggregate iterator each element once, every tracked attribute of every node equals the model (so no node is affected by an operation that does not name it); isolation probe over 14 constructor/mutable-attribute pairs with default arguments and with one argument object given to two constructors.",
+        "design_ref": "DESIGN.md section 5 C04",
+        "note": "Checked only between public operations; private state is never read.",
+    },
+    "C05": {
+        "technique": "runtime monitor with scan oracle: layout edit histories, all 18 interval-scope and 18 section/module/IR-scope block lookups probed at check points with queries built from every critical coordinate +-1, sandwich comparison must<=got<=may",
+        "text": "Held on ~1.3M lookup comparisons per quick run (320 histories, tiny coordinate space so overlaps/equal offsets/zero sizes are the norm, every 4th history around 2^63/2^64-1, points, ranges with steps 1,2,3,7, empty and reversed ranges, complete point sweep at the end, save->load->continue): no duplicate, nothing outside the scan, nothing the scan demands missing; kind variants equal the kind filter.",
+        "design_ref": "DESIGN.md section 5 C05",
+        "note": "'on' with step>1 and blocks outside their interval's extent are judged by the sandwich, as the property allows; <=8 intervals, <=16 blocks.",
+    },
+    "C06": {
+        "technique": "runtime monitor with scan oracle: interval-heavy layout histories; byte_intervals_on/at, sections_on/at and Section.address/size compared with a scan after every operation / at check points",
+        "text": "Section extents are compared after every operation in all four classes (empty, some unaddressed, single, all addressed); interval and section lookups at section/module/IR scope with the C05 query generator, including None<->address flips, coinciding and empty intervals, far regime at 0 and near 2^64.",
+        "design_ref": "DESIGN.md section 5 C06",
+        "note": "As C05.",
+    },
+    "C10": {
+        "technique": "runtime monitor with forest model: symbol-heavy ownership histories; symbols_named over a small name alphabet and Block.references for every block compared with a scan after every operation",
+        "text": "Renames (to '' and shared names), payload switches among block/0/int/None through referent=, value= and the constructor (all transition classes counted), symbol and block moves between modules/IRs from both ends, load; each result must equal the scan, each symbol once.",
+        "design_ref": "DESIGN.md section 5 C10",
+        "note": "As C03.",
+    },
+    "C11": {
+        "technique": "lock-step runtime monitor: CFG operations mirrored on a dict keyed by (id(source), id(target), label); membership, len, iteration, out/in_edges of every node and block edge views compared after every operation",
+        "text": "Held after each of ~45k operations per quick run on two CFGs (add/discard/remove/pop/clear/update/|=/&=/-=/^=, binary operators and comparisons, node moves between IRs), with parallel edges, self-loops, labels None vs all-false vs default, equal-by-value label objects, detached nodes.",
+        "design_ref": "DESIGN.md section 5 C11",
+        "note": "Block views are compared with the CFG of the IR the block is attached to.",
+    },
+    "C12": {
+        "technique": "replica comparison under different lookup schedules (none / every step / bursts / threshold-targeted / twice) of one edit history, identical complete final probe; diagnostic hook classifies the lazy-index maintenance path taken",
+        "text": "160 histories x 5 schedules per quick run; every final answer (all C05/C06/C13 lookups + section extents, ~22k per replica) identical across schedules. Evidence shows first-use, incremental-replay and rebuild paths and pending<,=,> size relations all observed on both tree kinds (non-empty collections only).",
+        "design_ref": "DESIGN.md section 5 C12",
+        "note": "Schedules are placements of lookups inside a deterministic history, explored by construction, not by a scheduler; path counters rely on a wrapper around a private method (evidence only, but required for 'held').",
+    },
+    "C13": {
+        "technique": "runtime monitor with scan oracle + store mirror: mapping-heavy layout histories; interval scope compared as ordered identity triples, wider scopes as multiset sandwich; mapping operations mirrored on a dict",
+        "text": "All mapping operations of the quantifier (item set/replace/delete, pop, popitem, setdefault, update, clear, whole-mapping assignment from dict / pairs / another interval's mapping), address changes and moves; ordered equality at interval scope incl. nothing for unaddressed intervals.",
+        "design_ref": "DESIGN.md section 5 C13",
+        "note": "Assigning an interval's own mapping back to it is not generated (outside the listed properties).",
+    },
+    "C14": {
+        "technique": "runtime monitor over save with per-table history classes: files assembled as raw messages, tables left/read/mutated/assigned/renamed over up to 4 generations, written (type_name, bytes) parsed with generated classes and compared with the class's demand using the reference codec",
+        "text": "~60k table checks per quick run: untouched tables (known, unknown, partially unknown, non-canonical) byte-identical; touched supported tables equal the reference encoding of the current value under the current type name (stale bytes distinguishable in >90% of touched cases); unknown-typed tables byte-identical even after being read.",
+        "design_ref": "DESIGN.md section 5 C14",
+        "note": "New type names are compatible widenings; unknown-typed tables are only left or read.",
+    },
+    "C16": {
+        "technique": "lock-step runtime monitor against the built-in list/set/dict on the same elements (return value, exception type, resulting contents modulo move-instead-of-duplicate) + world check after every call, also after calls that raise",
+        "text": "MutableSequence on ir.modules (incl. extended slices, reverse, +=, self re-insertion), MutableSet on the five node sets (incl. binary operators both ways, comparisons, update with 0-2 iterables, in-place operators), MutableMapping on symbolic_expressions (incl. views, ==, popitem, setdefault, whole-mapping assignment); ~230 operation kinds per quick run.",
+        "design_ref": "DESIGN.md section 5 C16",
+        "note": "Same-list re-insertion judged by the weak contract stated in DESIGN.md; values passed in one call are distinct.",
+    },
+    "C19": {
+        "technique": "runtime monitor with reference model (bytearray + integer) over size/initialized_size/contents histories; arithmetic oracles for block views at all critical coordinates; save->load after steps; constructor/loader negatives",
+        "text": "After every step initialized_size == len(contents) <= size and contents equal the model (pad with zeros, truncate, truncate on size shrink); the IR saves and loads back; block address/contents/contains_offset/contains_address equal their definitions for blocks inside, straddling and beyond the stored bytes, incl. near 2^64.",
+        "design_ref": "DESIGN.md section 5 C19",
+        "note": "initialized_size and content assignments stay <= size, as the quantifier says.",
+    },
     "C01": {
         "technique": "runtime monitor with reference model: generated specs built through the public API under random construction strategies, snapshot-equality oracle across save/load generations, deep_eq both ways, message-level re-save comparison",
         "text": "Held on every generated self-contained IR of this run (0-3 modules, all boundary classes of the quantifier tracked as a checklist in evidence, ~50 construction routes): loaded == saved by canonical snapshot of public attributes incl. decoded AuxData, deep_eq both directions, re-saved file equal as a normalised message, up to 3 generations. Exploration: sizes bounded (<=9 children per collection), so size-dependent defects are out of reach.",
